@@ -59,49 +59,124 @@ func raceChild(spec string) {
 	}
 	time.Sleep(100 * time.Millisecond) // first probes: everything ready
 	var picks, bad int64
-	stop := make(chan struct{})
-	var wg sync.WaitGroup
-	for g := 0; g < rc.Race.Goroutines; g++ {
-		wg.Add(1)
-		go func(g int) {
-			defer wg.Done()
-			for {
-				select {
-				case <-stop:
-					return
-				default:
-				}
-				p, err := w.CI.MatchAttributes(lib.AttrsFor(g % 2))
-				if err != nil {
-					atomic.AddInt64(&bad, 1)
-					continue
-				}
-				// names[0] and names[1] are ready servers throughout: a pick can never fail
-				if e, err := p.Pop(); err != nil || e == nil {
-					atomic.AddInt64(&bad, 1)
-				}
-				atomic.AddInt64(&picks, 1)
-			}
-		}(g)
-	}
-	deadline := time.Now().Add(time.Duration(rc.Race.Millis) * time.Millisecond)
 	syncs := 0
-	for time.Now().Before(deadline) {
-		s, _ := mk(n - 1 + syncs%2) // the last server is removed and added again
+	// startPickers runs the request goroutines; the returned function stops them (exit 3 if they hang)
+	startPickers := func() func() {
+		stop := make(chan struct{})
+		var wg sync.WaitGroup
+		for g := 0; g < rc.Race.Goroutines; g++ {
+			wg.Add(1)
+			go func(g int) {
+				defer wg.Done()
+				for {
+					select {
+					case <-stop:
+						return
+					default:
+					}
+					p, err := w.CI.MatchAttributes(lib.AttrsFor(g % 2))
+					if err != nil {
+						atomic.AddInt64(&bad, 1)
+						continue
+					}
+					// names[0] and names[1] are ready servers throughout: a pick can never fail
+					if e, err := p.Pop(); err != nil || e == nil {
+						atomic.AddInt64(&bad, 1)
+					}
+					atomic.AddInt64(&picks, 1)
+				}
+			}(g)
+		}
+		return func() {
+			close(stop)
+			done := make(chan struct{})
+			go func() { wg.Wait(); close(done) }()
+			select {
+			case <-done:
+			case <-time.After(15 * time.Second):
+				fmt.Printf("VERIF-RACE hang syncs=%d picks=%d\n", syncs, atomic.LoadInt64(&picks))
+				os.Exit(3)
+			}
+		}
+	}
+	doSync := func(k int) {
+		s, _ := mk(k)
 		if err := w.CI.Sync(lib.ClusterOf(s, policies)); err != nil {
 			fmt.Println("sync:", err)
 			os.Exit(2)
 		}
 		syncs++
 	}
-	close(stop)
-	done := make(chan struct{})
-	go func() { wg.Wait(); close(done) }()
-	select {
-	case <-done:
-	case <-time.After(15 * time.Second):
-		fmt.Printf("VERIF-RACE hang syncs=%d picks=%d\n", syncs, atomic.LoadInt64(&picks))
-		os.Exit(3)
+	// checkFinal: the last Sync, issued under traffic, added the last server and no further Sync (which could repair stale
+	// derived state) follows. Every server of the final spec must have an endpoint object when Sync has returned; after
+	// quiescence a request without subset must be offered every server: AllEndpoints() = the server list, and every (ready)
+	// server is reached by picks.
+	checkFinal := func(phase string) {
+		for _, name := range names {
+			if _, ok := w.Load(name); !ok {
+				fmt.Printf("VERIF-RACE stale %s, %d syncs: server %s of the final spec has no endpoint object after Sync returned\n", phase, syncs, rig.UnHex(name))
+				os.Exit(5)
+			}
+		}
+		settle := time.Now().Add(20 * time.Second)
+		for {
+			ready := 0
+			for _, name := range names {
+				if e, ok := w.Load(name); ok && e.IsReady() {
+					ready++
+				}
+			}
+			if ready == n {
+				break
+			}
+			if time.Now().After(settle) { // first probes not done (a starved machine): nothing can be concluded
+				fmt.Printf("VERIF-RACE final state not settled %s\n", phase)
+				return
+			}
+			time.Sleep(time.Millisecond)
+		}
+		got := map[string]bool{}
+		for _, e := range w.CI.AllEndpoints() {
+			got[e] = true
+		}
+		seen := map[string]bool{}
+		for i := 0; i < 40*n; i++ {
+			if p, err := w.CI.MatchAttributes(lib.AttrsFor(0)); err == nil {
+				if e, err := p.Pop(); err == nil && e != nil {
+					seen[e.Endpoint] = true
+				}
+			}
+		}
+		for _, name := range names {
+			if u := rig.UnHex(name); !got[u] || !seen[u] {
+				fmt.Printf("VERIF-RACE stale %s, %d syncs: server %s of the final spec: in AllEndpoints()=%v (%d names for %d servers), reached by %d picks without subset=%v\n", phase, syncs, u, got[u], len(got), n, 40*n, seen[u])
+				os.Exit(5)
+			}
+		}
+		if len(got) != n {
+			fmt.Printf("VERIF-RACE stale %s, %d syncs: AllEndpoints() has %d names for the %d servers of the final spec\n", phase, syncs, len(got), n)
+			os.Exit(5)
+		}
+	}
+	_ = checkFinal
+	stopPickers := startPickers()
+	deadline := time.Now().Add(time.Duration(rc.Race.Millis) * time.Millisecond)
+	for time.Now().Before(deadline) {
+		doSync(n - 1 + syncs%2) // the last server is removed and added again
+	}
+	if syncs%2 == 1 { // the last Sync removed the server: add it once more while the pickers are still running
+		doSync(n)
+	}
+	stopPickers()
+	checkFinal("after the run")
+	// once more from a settled state: remove and re-add the last server under traffic (state derived from the server list
+	// that went stale in one direction during the run can only show in the other)
+	for round := 0; round < 2; round++ {
+		stopPickers = startPickers()
+		doSync(n - 1)
+		doSync(n)
+		stopPickers()
+		checkFinal(fmt.Sprintf("after remove + re-add no. %d under traffic", round+1))
 	}
 	fmt.Printf("VERIF-RACE finished syncs=%d picks=%d failed=%d\n", syncs, picks, bad)
 	if bad > 0 {
@@ -161,6 +236,14 @@ func runRace(c *rig.Ctx, rc RaceCase) bool {
 		// syncEndpoints overwrote the sync.Map (and its mutex) that a concurrent Pop was using
 		c.Fail(rig.Failure{Kind: "judge", Class: "c03.lb-reset-race", Case: rc, Impl: head,
 			What: what + "the process died / hung inside sync.Map (the load-balancer map was overwritten under a running Pop): requests are neither forwarded nor answered 503"})
+		return false
+	case strings.Contains(text, "VERIF-RACE stale"):
+		line := text[strings.Index(text, "VERIF-RACE stale"):]
+		if i := strings.Index(line, "\n"); i > 0 {
+			line = line[:i]
+		}
+		c.Fail(rig.Failure{Kind: "judge", Class: "c03.race-stale-endpoints", Case: rc, Impl: line,
+			What: what + "after quiescence a request without subset is not offered every server of the final spec (a ready server gets no traffic; 503 if it is the only ready one): " + line})
 		return false
 	case strings.Contains(text, "VERIF-RACE finished"):
 		c.Fail(rig.Failure{Kind: "judge", Class: "c03.race-pick-failed", Case: rc, Impl: head,
